@@ -136,3 +136,28 @@ def apath(t, names=None):
         return "ok(%s)" % apath(t[1], names)
     from .core import fmt_t
     return fmt_t(t)
+
+
+WRAPPERS = ("std::ops::Try::branch", "std::future::IntoFuture::into_future", "std::pin::Pin::<Ptr>::new_unchecked", "futures::Future::poll",
+            "std::future::Future::poll", "std::clone::Clone::clone", "std::convert::Into::into", "std::convert::From::from",
+            "std::result::Result::<T, E>::map_err", "std::option::Option::<T>::as_ref", "std::result::Result::<T, E>::as_ref")
+
+
+def head_call(t):
+    """The call that produced a value, looking through await / ? / projections / map_err."""
+    for _ in range(64):
+        while t[0] in ("ref", "deref"):
+            t = t[1]
+        if t[0] in ("field", "downcast", "okpayload", "discr"):
+            t = t[1]
+            continue
+        if t[0] == "call" and t[1] in WRAPPERS and t[2]:
+            t = t[2][0]
+            continue
+        if t[0] == "phi":
+            hs = set(head_call(x) for x in t[1])
+            return hs.pop() if len(hs) == 1 else None
+        if t[0] == "call":
+            return norm(t[1])
+        return None
+    return None
